@@ -9,7 +9,6 @@ from typing import Iterable
 from typing import NamedTuple
 from typing import Optional
 from typing import TextIO
-from typing import cast
 
 from markupsafe import Markup
 
@@ -29,6 +28,7 @@ from liquid.messages import MESSAGES
 from liquid.messages import MessageText
 from liquid.messages import TranslatableTag
 from liquid.messages import Translations
+from liquid.messages import check_translations
 from liquid.messages import line_number
 from liquid.parser import get_parser
 from liquid.stringify import to_liquid_string
@@ -128,9 +128,9 @@ class TranslateNode(Node, TranslatableTag):
 
     def resolve_translations(self, context: RenderContext) -> Translations:
         """Return a translations object from the current render context."""
-        return cast(
-            Translations,
+        return check_translations(
             context.resolve(self.translations_var, default=self.default_translations),
+            self.translations_var,
         )
 
     def resolve_count(
